@@ -21,6 +21,7 @@ path "rec/data/*" { capabilities = ["read","update","create"] }
 path "rec/lease/*" { capabilities = ["read"] }
 path "rec/data/denied/*" { capabilities = ["deny"] }
 path "auth/token/create" { capabilities = ["update","sudo"] }
+path "auth/token/create-orphan" { capabilities = ["update","sudo"] }
 `
 
 type c19Outcome struct {
@@ -32,7 +33,7 @@ type c19Outcome struct {
 	GotData  bool   `json:"got_data,omitempty"`
 }
 
-var c19Kinds = []string{"read", "write", "denied", "lease", "lookup-self", "create-child"}
+var c19Kinds = []string{"read", "write", "denied", "lease", "lookup-self", "create-child", "create-orphan"}
 
 func c19Boot(t *testing.T, tx bool) *vCore {
 	v := vBoot(t, vOpts{Transactional: tx})
@@ -57,6 +58,8 @@ func c19Req(v *vCore, kind, name, tag, token string) (*logical.Response, error) 
 		return v.Do(vReq{Tag: tag, Op: logical.ReadOperation, Path: "auth/token/lookup-self", Token: token})
 	case "create-child":
 		return v.Do(vReq{Tag: tag, Op: logical.UpdateOperation, Path: "auth/token/create", Token: token, Data: map[string]any{"policies": []string{"default"}, "ttl": "1h"}})
+	case "create-orphan":
+		return v.Do(vReq{Tag: tag, Op: logical.UpdateOperation, Path: "auth/token/create-orphan", Token: token, Data: map[string]any{"policies": []string{"default"}, "ttl": "1h"}})
 	}
 	panic(kind)
 }
@@ -198,7 +201,7 @@ func c19Case(t *testing.T, v *vCore, r *kit.Result, caseID string, n int, kinds 
 				o.LeaseID = resps[i].Secret.LeaseID
 				leasesIssued = append(leasesIssued, o.LeaseID)
 			}
-		case "create-child":
+		case "create-child", "create-orphan":
 			if ok && resps[i] != nil && resps[i].Auth != nil {
 				r.Violate("C19-child-created", caseID, fmt.Sprintf("use-limited token (n=%d) created a child token", n), map[string]any{"kinds": kinds})
 			}
@@ -221,6 +224,23 @@ func c19Case(t *testing.T, v *vCore, r *kit.Result, caseID string, n int, kinds 
 	}
 	// the request that took the final use must not hand out a leased secret: every returned lease
 	// must belong to a request that was not the last accounted one -> after exhaustion all are revoked
+	// The revocation after the last use is handed to the expiration workers (LazyRevoke), so it
+	// is asynchronous: wait (bounded, generous) until the token's record is gone before judging
+	// what must have died with it. Not reached = inconclusive, never a violation.
+	if uses >= n {
+		gone := false
+		for i := 0; i < 3000 && !gone; i++ {
+			e, gerr := v.Core.tokenStore.idView(namespace.RootNamespace).Get(ctx, salted)
+			gone = gerr == nil && e == nil
+			if !gone {
+				time.Sleep(5 * time.Millisecond)
+			}
+		}
+		if !gone {
+			r.Inconc("%s: token record still present 15s after its last use (revocation worker did not finish)", caseID)
+			return sched, true
+		}
+	}
 	v.WaitQuiet(10*time.Millisecond, 2*time.Second)
 	if v.TokenUsable(tok.ID, "") {
 		r.Violate("C19-token-usable-after-exhaustion", caseID, fmt.Sprintf("token with num_uses=%d still usable after %d requests", n, len(kinds)), wit)
